@@ -594,10 +594,26 @@ Section CodecProofs.
   Qed.
 
   (* ---- round trip --------------------------------------------------------------- *)
-  Hypothesis parse_ser : forall m, parse (ser m) = Some m.
-
   Lemma decode_nil : decode [] = ([], mkD tt [] false false).
   Proof. rewrite decode_unfold, ref_split_eq. reflexivity. Qed.
+
+  (* the round trip needs parse (ser m) = Some m only for the messages actually sent *)
+  Theorem codec_roundtrip_on : forall ms chunks,
+    Forall (fun m => parse (ser m) = Some m /\ frame_fits (ser m)) ms ->
+    concat chunks = flat_map (encode_msg msg ser tag) ms ->
+    cfeed_all codec_init chunks = (map CMsg ms, mkD tt [] false false).
+  Proof.
+    intros ms chunks Hfit Hc. rewrite feed_all_decode, Hc.
+    assert (HF : Forall2 good (map ser ms) ms).
+    { clear Hc. induction Hfit as [|m ms Hm _ IH]; cbn [map]; [constructor|].
+      constructor; [exact Hm|exact IH]. }
+    replace (flat_map (encode_msg msg ser tag) ms) with (flat_map (encode tag) (map ser ms) ++ []).
+    - rewrite (decode_prefix _ _ [] HF), decode_nil, app_nil_r. reflexivity.
+    - rewrite app_nil_r. clear. induction ms as [|m ms IH]; [reflexivity|].
+      cbn [flat_map map]. rewrite IH. reflexivity.
+  Qed.
+
+  Hypothesis parse_ser : forall m, parse (ser m) = Some m.
 
   Theorem codec_roundtrip : forall ms chunks,
     Forall (fun m => frame_fits (ser m)) ms ->
